@@ -28,11 +28,13 @@ TIERS = {
     "quick": {"shards": 4, "cases": 1000, "timeout": 300},
     "thorough": {"shards": 16, "cases": 6000, "timeout": 3000},
 }
-FLOORS = {"quick": {"global_configuration_swaps": 300, "distinct_nontrivial": 1500, "formatter_checks": 40000, "palette_accessor_checks": 3000,
+FLOORS = {"quick": {"deep_copies_of_the_global_configuration_extended": 120,
+                    "global_configuration_swaps": 300, "distinct_nontrivial": 1500, "formatter_checks": 40000, "palette_accessor_checks": 3000,
                     "pending_chains_resolved_later": 200, "conflicting_late_descriptions_ignored": 1000,
                     "synced_palette_checks": 200, "no_color_checks": 1000,
                     "palettes_obtained_through_the_user_helper": 20000},
-          "thorough": {"distinct_nontrivial": 60000, "formatter_checks": 2000000, "palette_accessor_checks": 150000,
+          "thorough": {"deep_copies_of_the_global_configuration_extended": 480,
+                       "distinct_nontrivial": 60000, "formatter_checks": 2000000, "palette_accessor_checks": 150000,
                        "pending_chains_resolved_later": 10000, "conflicting_late_descriptions_ignored": 50000,
                        "synced_palette_checks": 10000, "no_color_checks": 50000,
                        "palettes_obtained_through_the_user_helper": 500000}}
